@@ -8,6 +8,7 @@ import H2.Proofs.PairCredit
 -- the credit equation of one window between two endpoints, everything in flight (arithmetic of windows.py + C03/C04/C11)
 -- @also H2.PairCredit.data_never_overruns
 import H2.Proofs.StreamLemmas
+import H2.Proofs.SendHeaders
 
 namespace H2.C03
 open H2 H2.Gen H2.Conn
@@ -62,6 +63,82 @@ theorem C03_refuse (c : Conn) (sid : Int) (st : Stream) (data : Bytes) (es : Boo
     have h2 : (data.length : Int) + p + 1 > min c.outWin st.outWin := by omega
     simp only [h2, if_true]
     exact ⟨trivial, by decide⟩
+
+/-- **what a `send_data` call does to the ledger**, any state, any arguments: if it returns, it has written exactly
+    one DATA frame, its flow-controlled length fitted both windows, and the connection window went down by exactly that
+    length; if it raises, it has written nothing and the connection window is what it was.  Either way the inbound
+    window manager is untouched. -/
+theorem C03_send_data_ledger (c : Conn) (sid : Int) (data : Bytes) (es : Bool) (pad : Option Int) :
+    wp (sendData sid data es pad)
+      (fun _ c' => (∃ fsid, c'.sent = c.sent ++ [Frame.data fsid data es pad]) ∧
+          fclOf data pad ≤ c.outWin ∧ c'.outWin = c.outWin - fclOf data pad ∧ c'.inWM = c.inWM ∧
+          (∀ st, c.streams.lookup sid = some st → fclOf data pad ≤ st.outWin))
+      (fun _ c' => c'.sent = c.sent ∧ c'.outWin = c.outWin ∧ c'.inWM = c.inWM) c := by
+  have core : ∀ (hp : ∀ p, pad = some p → 0 ≤ p ∧ p ≤ 255),
+      wp (sendDataCore sid data es pad (fclOf data pad))
+        (fun _ c' => (∃ fsid, c'.sent = c.sent ++ [Frame.data fsid data es pad]) ∧
+            fclOf data pad ≤ c.outWin ∧ c'.outWin = c.outWin - fclOf data pad ∧ c'.inWM = c.inWM ∧
+            (∀ st, c.streams.lookup sid = some st → fclOf data pad ≤ st.outWin))
+        (fun _ c' => c'.sent = c.sent ∧ c'.outWin = c.outWin ∧ c'.inWM = c.inWM) c := by
+    intro hp
+    unfold sendDataCore localFlowControlWindow
+    wps
+    rw [wp_getStreamById_eq]
+    by_cases hex : hasStream c sid = true
+    · simp only [hex, if_true]
+      wps
+      have hlk := hex
+      rw [hasStream_lookup] at hlk
+      unfold lookupStream
+      cases hl : c.streams.lookup sid with
+      | none => rw [hl] at hlk; simp at hlk
+      | some st =>
+        simp only
+        wps
+        by_cases h1 : fclOf data pad > min c.outWin st.outWin
+        · simp only [h1, if_true]; exact ⟨trivial, trivial, trivial⟩
+        · simp only [h1, if_false]
+          by_cases h2 : fclOf data pad > c.maxOutFrame
+          · simp only [h2, if_true]; exact ⟨trivial, trivial, trivial⟩
+          · simp only [h2, if_false]
+            cases ht : connTable c.cstate .SEND_DATA with
+            | none => rw [wp_connInput_err _ _ ht]; exact ⟨rfl, rfl, rfl⟩
+            | some t =>
+              rw [wp_connInput_ok _ _ _ ht]
+              wps
+              rw [wp_withStream]
+              simp only [hl]
+              refine wp_mono (sallowed_sendData data es pad st (by omega)) ?_ ?_
+              · intro frames st' hr
+                obtain ⟨s', hfr⟩ := hr
+                subst hfr
+                wps
+                apply wp_prepare_fit
+                · exact data_fits s' data es pad _ hp (by show fclOf data pad ≤ c.maxOutFrame; omega)
+                · intro o
+                  wps
+                  rw [if_neg (by
+                    show ¬ (c.outWin - fclOf data pad < 0)
+                    omega)]
+                  refine ⟨⟨s', rfl⟩, by omega, rfl, rfl, ?_⟩
+                  intro st2 hst2
+                  injection hst2 with hst2
+                  subst hst2
+                  omega
+              · intro e st' _; exact ⟨rfl, rfl, rfl⟩
+    · simp only [hex, Bool.false_eq_true, if_false]
+      repeat' split
+      all_goals first | exact ⟨rfl, rfl, rfl⟩ | exact ⟨trivial, trivial, trivial⟩
+  cases pad with
+  | none => exact core (fun p hp => by cases hp)
+  | some p =>
+    unfold sendData
+    simp only
+    by_cases hp : (decide (p < 0) || decide (p > 255)) = true
+    · simp only [hp, if_true]; exact ⟨rfl, rfl, rfl⟩
+    · simp only [hp, Bool.false_eq_true, if_false]
+      have := core (fun q hq => by injection hq with hq; subst hq; simp at hp; omega)
+      simpa only [fclOf, Int.add_assoc] using this
 
 /-- the stream-level bookkeeping: whenever `H2Stream.send_data` returns, the stream window went down by exactly the
     flow-controlled length, the DATA frame carries exactly the call's data, END_STREAM and padding, and nothing but
